@@ -100,8 +100,32 @@ def _pairwise_fixed():
     return {"arity": 2, "control": "ctl", "rows": rows, "observed": [], "ns": 2, "nt": 8, "ssp": False}
 
 
+def _big_fixed():
+    """two samples x two unobserved plates of five experiments (sub-sampling smoothers / hold-outs have something to choose from)"""
+    rows = []
+    for s_ in range(2):
+        for j in range(2):
+            for r in range(5):
+                rows.append({"s": "s%d" % s_, "p": "p%d_%d" % (s_, j), "t": ["t%d" % (r % 3), "t%d" % ((r + 1 + j) % 3 + 3)], "d": [1.0, 1.0], "o": 0.2 + 0.1 * r})
+        rows.append({"s": "s%d" % s_, "p": "p%d_obs" % s_, "t": ["t0", "ctl"], "d": [1.0, 0.0], "o": 0.6})
+    return {"arity": 2, "control": "ctl", "rows": rows, "observed": ["p0_obs", "p1_obs"], "ns": 2, "nt": 12, "ssp": True}
+
+
 def fixed_cases():
     out = list(_fixed_cases())
+    big = _big_fixed()
+    for op, params in (
+        ("holdout:plate_balanced", {}),
+        ("holdout:random", {}),
+        ("smooth:FixedSize", {"name": "FixedSize", "plate_size": 3}),
+        ("smooth:OptimalSize", {"name": "OptimalSize"}),
+        ("smooth:BatchieEnsemble", {"name": "BatchieEnsemble", "min_size": 4, "n_iterations": 1, "k": 1}),
+        ("gen:SampleSegregating", {"name": "SampleSegregating", "max_plate_size": 3}),
+        ("gen:PlatePermutation", {"name": "PlatePermutation"}),
+        ("cover", {}),
+    ):
+        for seed, frac in ((5, 0.5), (6, 0.3)):
+            out.append({"op": op, "screen": big, "seed": seed, "ambient": [9, 10], "ambient_draws": [1, 0], "params": params, "flag": seed == 5, "fraction": frac, "n_thetas": 6, "D": 1, "k": 1})
     for seed in (3, 4):
         for sub, anc in ((1, 0), (2, 0), (1, 2)):
             out.append({"op": "gen:Pairwise", "screen": _pairwise_fixed(), "seed": seed, "ambient": [1, 2], "ambient_draws": [0, 1], "params": {"name": "Pairwise", "subset_size": sub, "anchor_size": anc}, "flag": True, "fraction": 0.5, "n_thetas": 6, "D": 1, "k": 1})
